@@ -177,6 +177,14 @@ nodesLoop:
 		}
 		node := nodes[i]
 
+		// Whether a statement is terminating does not depend on the
+		// statements that precede it.
+		switch node.(type) {
+		case *ast.Text, *ast.Comment:
+		default:
+			tc.terminating = false
+		}
+
 		switch node := node.(type) {
 
 		case *ast.Import:
@@ -345,6 +353,8 @@ nodesLoop:
 			if node.Else != nil {
 				node.Else.Nodes = tc.checkNodesInNewScope(node.Else, node.Else.Nodes)
 			}
+			// A "for" statement with a range clause is never terminating.
+			tc.terminating = false
 
 		case *ast.Assignment:
 			tc.checkGenericAssignmentNode(node)
